@@ -12,8 +12,9 @@ Floats are converted exactly (``Fraction(x)``), never rounded.
 
 Trusted base: this file + ``fractions``.  Within this file only ``verify`` (and the tiny
 helpers it uses: ``_cvec``, ``_dot``, ``_feasible``, ``_upper_bound``) has to be right:
-``solve`` runs a bounded-variable two-phase primal simplex (dense tableau, Bland's rule),
-turns its final basis into a certificate and hands that to ``verify``, which re-checks it
+``solve`` runs a bounded-variable two-phase primal simplex (fraction-free integer tableau,
+Dantzig pricing with Bland's rule after degenerate steps, so it terminates), turns its final
+basis into a certificate and hands that to ``verify``, which re-checks it
 in exact arithmetic from the *original* LP data without looking at any simplex state.
 If the certificate does not check out (or ``max_iter`` is hit) the answer is
 ``status='unknown', certified=False``.  A simplex bug can thus make the oracle fail to
@@ -363,13 +364,16 @@ def solve(lp, c, sense='max', max_iter=20000):
     if res is None:
         tab = _Tableau(lp)
         sgn = 1 if sense == 'max' else -1
-        duals = lambda div: [sgn * k * Fraction(d, div) for k, d in zip(tab.scale, tab.T[-1][n:n + m])]
+
+        def duals(div):      # multipliers of the original rows = (row scale) * (reduced cost of the slack) / div
+            return [k * Fraction(d, div) for k, d in zip(tab.scale, tab.T[-1][n:n + m])]
+
         outcome = 'optimal'
         if tab.N > tab.art0:                         # phase 1: maximise -(sum of artificials)
             tab.price([0] * tab.art0 + [-1] * (tab.N - tab.art0))
             outcome, _ = tab.run(max_iter)
             if outcome == 'optimal' and any(tab.z[k] != 0 for k in range(tab.art0, tab.N)):
-                res = Result('infeasible', y=duals(sgn * tab.D))
+                res = Result('infeasible', y=duals(tab.D))
             elif outcome == 'unbounded':             # impossible; treat as a failure
                 outcome = 'iter'
             for k in range(tab.art0, tab.N):
@@ -380,7 +384,7 @@ def solve(lp, c, sense='max', max_iter=20000):
             outcome, info = tab.run(max_iter)
             x = tab.z[:n]
             if outcome == 'optimal':
-                res = Result('optimal', value=evaluate(cv, x), x=x, y=duals(tab.D * cscale))
+                res = Result('optimal', value=evaluate(cv, x), x=x, y=duals(sgn * tab.D * cscale))
             elif outcome == 'unbounded':
                 q, s = info
                 ray = [_Z] * n
